@@ -12,7 +12,8 @@ RULE = ('case = (solver, termination tree, program over Step/Solve/SetEvaluation
 ASSUMPTIONS = ['"Solve always returns" is restated as bounded progress: the number of Steps inside Solve is bounded by the limits in force (+ slack); a watchdog firing is inconclusive',
                'limits are compared with the real iteration and cost-call counts kept by the harness',
                'wall-clock time plays no role (TimeLimits is not used)']
-CLASSES = {'programs': {'quick': 2880, 'thorough': 18000}, 'default_limits': {'quick': 480, 'thorough': 3000}, 'wrappers': {'quick': 1200, 'thorough': 9000}}
+CLASSES = {'programs': {'quick': 2880, 'thorough': 18000}, 'default_limits': {'quick': 480, 'thorough': 3000}, 'wrappers': {'quick': 1200, 'thorough': 9000},
+           'ensemble_wrappers': {'quick': 480, 'thorough': 4800}}
 MIN_EVENTS = {'quick': {'assert:c05': 3000, 'stop_condition_held_at_entry': 300, 'iterations': 1500}}
 CASE_TIMEOUT = 120
 
@@ -23,6 +24,17 @@ def run_case(cls, idx, rng, obs):
     np.seterr(all='ignore')
     if cls == 'wrappers':
         return run_wrapper(rng, obs)
+    if cls == 'ensemble_wrappers':      # lattice / buckshot / sparsity one-liners: the warnflag names the limit that the reported member actually reached
+        from .c09 import run_wrappers
+        real_check = obs.check
+        def only_warnflag(ok, clause, **kw):       # (the other clauses of that workload belong to C09 and are judged there)
+            if 'generation limit' in clause: return real_check(ok, clause.replace('ens:every member honours the ensemble\'s generation limit', 'c05:the warnflag of an ensemble wrapper names the limit that was reached'), **kw)
+            return True
+        obs.check = only_warnflag
+        try: r = run_wrappers(rng, obs)
+        finally: del obs.check
+        obs.event('assert:c05', 1); obs.event('iterations', 1)
+        return r
     cfg = A.gen_default_limits_program(rng) if cls == 'default_limits' else A.gen_program(rng, 'c05')
     obs.desc = cfg
     tmp = os.path.join(env.OUT, 'c05', '%d-%d' % (idx, os.getpid()))
